@@ -40,7 +40,7 @@ def explore(universe, variant, depth, simulate=None, workers=2, emitidx=True, sd
 
 
 def run(prop, level, rule, plans, tags=None, keys=("plain",), modes=("compiled",), hashseeds=(0,), nshards=8, queries=True,
-        extra_assume=()):
+        extra_assume=(), episodes=0):
     """plans: list of dict(universe, variant, depth, simulate=None|N).  Returns exit code."""
     v = Verdict(prop, level, get_tier(), rule)
     tags = tags or [prop]
@@ -62,7 +62,8 @@ def run(prop, level, rule, plans, tags=None, keys=("plain",), modes=("compiled",
         for mode in modes:
             for kk in keys:
                 fails, st, samples = mr.run_replay(g, plan["universe"], kk, scratch[mode], mode, list(hashseeds), nshards, queries=queries,
-                                                   fan_keep=plan.get("fan_keep", 1.0), seed=seed())
+                                                   fan_keep=plan.get("fan_keep", 1.0), seed=seed(),
+                                                   episodes=plan.get("episodes", episodes))
                 stats.update(st)
                 for s in samples[:1]:
                     v.sample({"universe": plan["universe"], "variant": plan["variant"], **s})
